@@ -10,6 +10,8 @@ CONSTANTS
   MaxT = 2
   MaxS = 1
   MaxClr = 2
+  MaxPlain = 1
+  Vias = {"set","views"}
   Depth = 0
   Gen = FALSE
 INIT Init
